@@ -6,7 +6,8 @@ from hypothesis import strategies as st
 from .. import gen, pkg
 from ..plain import Instance
 from ..runner import Result, Skip, Violation
-from ..solver_common import MODE, common_labels, prescribed_root_of, reference, solution_features, validate_output
+from ..solver_common import (MODE, common_labels, leaf_move, prescribed_root_of, reference, set_costs_inplace,
+                             set_leaf_species_inplace, solution_features, validate_output)
 
 ID = "C05"
 LEVEL = "exploration"
@@ -25,7 +26,7 @@ DESIGN_REF = "DESIGN.md section 5 (C05)"
 RULE = (
     "Bounded-exhaustive layer (see exhaustive_layer) + Hypothesis cases as in C01-C03 (group plain: <=5 object/<=5 species leaves; ordered: <=5/<=4, <=4 families, consistent or not, optional "
     "prescribed root; plain inputs have unnamed ancestral nodes in half of the cases (solutions then read by clades); unordered: <=6/<=4, <=4 families; one more leaf on each side in the thorough tier), coherent costs.  Checked per algorithm of the group: canonical(ALL) has no repeats and "
-    "equals the oracle's complete optimal set; ANY returns exactly one solution, member of that set; every returned solution valid with cost == "
+    "equals the oracle's complete optimal set, again after the unit costs of the same input object were changed in place and after one of its leaves was moved to another species in place; ANY returns exactly one solution, member of that set; every returned solution valid with cost == "
     "optimum; empty iff the oracle has no solution.  Non-trivial: the optimal set has >=2 members (ties) and the object tree >=3 leaves; "
     "distinct by SHA-1 of the case."
 )
@@ -93,7 +94,24 @@ def run_job(job):
             case = dict(base)
             case["costs"] = grid[(k * 11 + 3 + t * (len(grid) // per)) % len(grid)]
             case["_group"] = group
+            case["_history"] = (k + t) % 4 == 0
             yield case
+
+
+def _second_costs(c, labelled):
+    """another cost vector inside the region, derived from the first (no random choice)."""
+    hgt = c["HORIZONTAL_TRANSFER"]
+    c2 = dict(c)
+    c2["HORIZONTAL_TRANSFER"] = 1 if hgt == gen.INF else (gen.INF if hgt in (0, 1) else hgt - 1)
+    c2["DUPLICATION"] = c["DUPLICATION"] + 1
+    c2["FULL_LOSS"] = (c["FULL_LOSS"] + 1) % 3
+    c2["SEGMENTAL_LOSS"] = (c["SEGMENTAL_LOSS"] + 1) % 2 if labelled else c["SEGMENTAL_LOSS"]
+    budget = c2["DUPLICATION"] + 2 * c2["FULL_LOSS"] - (2 * c2["SEGMENTAL_LOSS"] if labelled else 0)
+    if budget < 0:
+        c2["SEGMENTAL_LOSS"] = 0
+        budget = c2["DUPLICATION"] + 2 * c2["FULL_LOSS"]
+    c2["SPECIATION"] = min(c["SPECIATION"], budget)
+    return c2
 
 
 def check(case):
@@ -161,6 +179,33 @@ def check(case):
         max_tie = max(max_tie, len(ref_set))
         if not restrict:
             any_set = ref_set
+    # history on the same input object: unit costs changed in place, then one leaf moved to another species in
+    # place; after each step ALL must be the complete optimal set of the input as it now is (one case in four of
+    # the exhaustive layer, every random case)
+    if not unnamed and case.get("_history", True):
+        labelled = group != "plain"
+        c2 = _second_costs(inst.c, labelled)
+        steps = [("costs-changed-in-place", dict({k: v for k, v in case.items() if not k.startswith("_")}, costs=c2))]
+        mv = leaf_move(case, inst)
+        if mv is not None:
+            steps.append(("leaf-moved-in-place", dict(mv[2], costs=c2)))
+        for tag, case2 in steps:
+            inst2 = Instance(case2)
+            if tag.startswith("costs"):
+                set_costs_inplace(inp, c2)
+            else:
+                set_leaf_species_inplace(inp, mv[0], mv[1])
+            for algo in GROUPS[group]:
+                mode, restrict = MODE[algo]
+                opt2, ref2 = reference(inst2, mode, restrict_lca=restrict, canonical=(mode == "unordered"))
+                if mode == "unordered" and reference(inst2, mode, restrict_lca=restrict, canonical=False, want_set=False)[0] != opt2:
+                    continue
+                got2 = Counter(pkg.canon_output(o, labelled=mode != "plain", ordered=mode == "ordered") for o in pkg.run_algo(algo, inp, "ALL"))
+                exp2 = Counter(ref2 or ())
+                if got2 != exp2:
+                    raise Violation(f"{algo}.ALL.after-{tag}", observed=f"{sum(got2.values())} returned, {len(set(got2) - set(exp2))} not optimal, {len(set(exp2) - set(got2))} missing",
+                                    expected=f"the {len(exp2)} optimal solutions of cost {opt2}", extra={"second_costs": c2, "moved": mv[:2] if mv and not tag.startswith("costs") else None})
+        labels.append("history")
     feats, _ = solution_features(inst, any_set, MODE[GROUPS[group][0]][0])
     labels += feats
     labels.append("tie=1" if max_tie <= 1 else "tie=2-4" if max_tie <= 4 else "tie=5-20" if max_tie <= 20 else "tie>20")
